@@ -2,6 +2,7 @@
 (* code -> spec: records of executions of the real datatypes are judged against   *)
 (* the oracle of Datatypes.  A trace is a sequence of records; record kinds:       *)
 (*   case  [dt, c, p, path, out]      out must be in Val(dt, c, p, path)           *)
+(*   rt.export / rt.wire / rt.text / rt.client  [dt, v, ...]  C02 laws on a value   *)
 (* One JVM judges a whole batch; a rejection names the violated clause.            *)
 EXTENDS Datatypes, Json, IOUtils, TLCExt, SequencesExt
 Traces == JsonDeserialize(IOEnv.TRACE_FILE)
@@ -20,7 +21,35 @@ CaseClause(e) ==
     ELSE IF ErrsOf(A) = {} THEN "rejects-valid"
     ELSE "error-class"
 
+(* C02 records: one value v of the value set of dt and what the real code made of it *)
+ExportClause(e) ==           \* j = json.loads(json.dumps(export_value(v), allow_nan=False)) or "notstrict"
+    IF e.j.j = "raised" THEN "export.raises"
+    ELSE IF e.j.j = "notstrict" THEN "export.strict"
+    ELSE IF ~KindOK(e.dt, e.j) THEN "export.kind"
+    ELSE IF e.j # Export(e.dt, e.v) THEN "export.value"
+    ELSE "ok"
+WireClause(e) ==             \* v1 / v2 = import_value + validate of j on the server / the rebuilt type
+    IF e.v1 # Ok(e.v) THEN "wire.roundtrip"
+    ELSE IF e.v2 # Ok(e.v) THEN "wire.roundtrip.rebuilt"
+    ELSE "ok"
+TextClause(e) ==             \* t1 = to_string(v), v3 = from_string(t1), t2 = to_string(v3)
+    IF ~e.ts THEN "text.to_string"
+    ELSE IF ~e.v3.ok THEN "text.accepted"
+    ELSE IF ~e.t2same THEN "text.stable"
+    ELSE IF ~EqModFloat(e.dt, e.v, e.v3.v) THEN "text.value"
+    ELSE "ok"
+ClientClause(e) ==           \* str(CacheItem) -> client from_string -> sent data -> server import + validate
+    IF ~e.cs.ok /\ e.cs.e = "RangeError" /\ HasFloat(e.dt) THEN "ok"    \* the rounded text of a float at its limit: not decided
+    ELSE IF ~e.cs.ok \/ ~e.cssame THEN "text.client-set"
+    ELSE IF ~EqModFloat(e.dt, e.v, e.cs.v) THEN "text.client-set.value"
+    ELSE "ok"
+RtGuard(e, c) == IF InSet(e.dt, e.v, TRUE) THEN c ELSE "machinery: value outside the value set"
+
 Clause(e) == CASE e.kind = "case" -> CaseClause(e)
+               [] e.kind = "rt.export" -> RtGuard(e, ExportClause(e))
+               [] e.kind = "rt.wire" -> RtGuard(e, WireClause(e))
+               [] e.kind = "rt.text" -> RtGuard(e, TextClause(e))
+               [] e.kind = "rt.client" -> RtGuard(e, ClientClause(e))
                [] OTHER -> "unknown record kind"
 
 TInit == t \in 1 .. NT /\ l = 1 /\ dt = Traces[t][1].dt
